@@ -174,6 +174,24 @@ def history_write_once(ctx, n, nsteps):
     for t in range(n):
         steps, marks = scen.rand_history(ctx.rng, nsteps)
         cases.append({"id": f"h{t}", "steps": steps, "marks": marks})
+    # a backup killed around the creation of its band (directory only, directory + i/, empty head), then another backup:
+    # the new version gets an id above EVERY existing directory and nothing lands in the leftover
+    for k in (4, 5, 6, 7):
+        for kind in ("crash", "crash_empty"):
+            t0 = scen.small_tree(ctx.rng)
+            t1, _ = gen.mutate_tree(ctx.rng, t0)
+            o = scen.small_opts(ctx.rng)
+            steps = [{"op": "init"}, {"op": "mktree", "path": "src", "tree": t0}, {"op": "snap", "path": "src"}, {"op": "walk"},
+                     {"op": "backup", "opts": o}, {"op": "arch"},
+                     {"op": "backup", "opts": o, "plan": {kind: k}}, {"op": "arch"},
+                     {"op": "mktree", "path": "src", "tree": t1}, {"op": "snap", "path": "src"}, {"op": "walk"},
+                     {"op": "backup", "opts": o}, {"op": "arch"}]
+            marks = [{"kind": "init"}, {"kind": "mktree", "tree": t0}, {"kind": "snap"}, {"kind": "walk"},
+                     {"kind": "backup", "plan": None, "tree": t0, "snap_at": 2}, {"kind": "arch"},
+                     {"kind": "backup", "plan": {kind: k}, "tree": t0, "snap_at": 2}, {"kind": "arch"},
+                     {"kind": "mktree", "tree": t1}, {"kind": "snap"}, {"kind": "walk"},
+                     {"kind": "backup", "plan": None, "tree": t1, "snap_at": 9}, {"kind": "arch"}]
+            cases.append({"id": f"b{k}{kind[-1]}", "steps": steps, "marks": marks})
     res = ctx.cvh_run(cases)
     hs = []
     for c in cases:
@@ -214,6 +232,14 @@ def history_write_once(ctx, n, nsteps):
                         if old_ids and new_ids and min(new_ids) <= max(old_ids):
                             ctx.oracle_fail("writeonce/band-id-not-fresh", f"new version id {new_ids} is not above existing {old_ids}", {"steps": c["steps"][:j + 2]})
                             okcase = False
+                        # nothing is written into a version directory that existed before this backup started
+                        for it in prs.get("trace", []):
+                            top = it["path"].split("/")[0]
+                            if it["verb"] == "Write" and (it.get("reply") or {}).get("ok") and scen.BAND_RE.match(top) and top in prev_arch["dirs"]:
+                                ctx.oracle_fail("writeonce/wrote-into-existing-version", f"backup wrote {it['path']} into {top}, a version directory that already existed "
+                                                f"(existing ids {sorted(old_ids)})", {"steps": c["steps"][:j + 2]})
+                                okcase = False
+                                break
                         # no path written successfully twice within the run (zero-length leftovers aside)
                         seen = set()
                         for it in prs.get("trace", []):
@@ -247,7 +273,7 @@ def history_write_once(ctx, n, nsteps):
                             if p in cur and cur[p] != hsh:
                                 ctx.oracle_fail("writeonce/delete-altered-file", f"delete altered {p}", {"steps": c["steps"][:j + 2]})
                                 okcase = False
-                    pending = None
+                pending = None          # (also when there was nothing to compare with: the first snapshot)
                 prev, prev_arch = cur, cur_arch
             if not okcase:
                 break
